@@ -1,4 +1,4 @@
-CONSTANTS TreeKind = "cart1"  NP = 2  MaxPer = 2  MaxTotal = 3  Mix = "mixed"  MinDepth = 2
+CONSTANTS TreeKind = "cart1"  NP = 2  MaxPer = 2  MaxTotal = 3  Mix = "mixed"  MinDepth = 2  MaxDepth = 3
   Tree <- MCTree
   StreamSet <- MCStreams
   Record = TRUE
